@@ -853,18 +853,24 @@ impl Execute for ast::CoprocessCommand {
             .set_fd(OpenFiles::STDOUT_FD, stdout_writer.into());
 
         let body = self.body.clone();
-        let join_handle = tokio::spawn(async move {
-            let pipeline_context = PipelineExecutionContext {
-                shell: commands::ShellForCommand::ParentShell(&mut child_shell),
-                process_group_id: None,
-            };
-            let spawn_result = body
-                .execute_in_pipeline(pipeline_context, child_params)
-                .await?;
-            match spawn_result.wait().await? {
-                ExecutionWaitResult::Completed(result) => Ok(result),
-                ExecutionWaitResult::Stopped(_) => Ok(ExecutionResult::stopped()),
-            }
+        // N.B. Like pipeline stages and background lists, the body gets a thread of its own: its
+        // builtins read and write synchronously, and on a runtime worker they would keep it (and
+        // with few CPUs the whole runtime) from doing anything else.
+        let join_handle = tokio::task::spawn_blocking(move || {
+            let rt = tokio::runtime::Handle::current();
+            rt.block_on(async move {
+                let pipeline_context = PipelineExecutionContext {
+                    shell: commands::ShellForCommand::ParentShell(&mut child_shell),
+                    process_group_id: None,
+                };
+                let spawn_result = body
+                    .execute_in_pipeline(pipeline_context, child_params)
+                    .await?;
+                match spawn_result.wait().await? {
+                    ExecutionWaitResult::Completed(result) => Ok(result),
+                    ExecutionWaitResult::Stopped(_) => Ok(ExecutionResult::stopped()),
+                }
+            })
         });
 
         let job = shell.jobs_mut().add_as_current(jobs::Job::new(
